@@ -156,19 +156,26 @@ pub fn run_c09_b(ctx: &Ctx) -> Outcome {
     // negotiated in STARTUP (none if the algorithm was not offered) - a frame compressed without negotiation, or a
     // STARTUP naming an algorithm that was not offered, is a malformed frame seen by the node.
     use scylla::frame::Compression as DC;
-    let worlds: [(&str, Option<DC>, bool, bool); 5] = [
-        ("compression:none", None, false, false),
-        ("compression:lz4-negotiated", Some(DC::Lz4), false, false),
-        ("compression:snappy-negotiated", Some(DC::Snappy), false, false),
-        ("compression:lz4-asked-node-offers-snappy-only", Some(DC::Lz4), true, false),
-        ("compression:snappy-asked-node-offers-none", Some(DC::Snappy), true, true),
+    let worlds: [(&str, Option<DC>, bool, bool, bool); 6] = [
+        ("compression:none", None, false, false, false),
+        ("compression:lz4-negotiated", Some(DC::Lz4), false, false, false),
+        ("compression:snappy-negotiated", Some(DC::Snappy), false, false, false),
+        ("compression:lz4-asked-node-offers-snappy-only", Some(DC::Lz4), true, false, false),
+        ("compression:snappy-asked-node-offers-none", Some(DC::Snappy), true, true, false),
+        // a cluster in the middle of an upgrade: one node speaks the metadata-id extension, the other does not;
+        // every frame must be in the dialect negotiated on ITS connection (the nodes parse accordingly)
+        ("mixed-cluster:metadata-id-extension-on-one-node-only", None, false, false, true),
     ];
-    for (wname, client_comp, no_lz4, no_snappy) in worlds {
+    for (wname, client_comp, no_lz4, no_snappy, mixed) in worlds {
     rt.block_on(async {
         let cap = Arc::new(Capture { seen: Mutex::new(vec![]) });
         let mut spec = single_node_spec();
         spec.nodes[0].features.no_lz4 = no_lz4;
         spec.nodes[0].features.no_snappy = no_snappy;
+        if mixed {
+            spec.nodes[0].features.metadata_id = true;
+            spec.nodes.push(NodeSpec::simple("dc1", "r2", vec![1000]));
+        }
         spec.keyspaces[0].tables.push(TableDef::new("cap", &[("op", "bigint")], &[("a", "int"), ("b", "text"), ("c", "bigint")]));
         let cluster = MockCluster::start(spec, cap.clone()).await;
         o.class(wname);
@@ -194,8 +201,12 @@ pub fn run_c09_b(ctx: &Ctx) -> Outcome {
                 return;
             }
         };
-        let sel = session.prepare(T_SEL).await.unwrap();
-        let n = ctx.vol(600, 30_000) / if client_comp.is_none() { 2 } else { 8 };
+        let mut sel = session.prepare(T_SEL).await.unwrap();
+        if mixed {
+            // the cached result metadata (and, where negotiated, its id) is used instead of asking for metadata again
+            sel.set_use_cached_result_metadata(true);
+        }
+        let n = ctx.vol(600, 30_000) / if mixed { 4 } else if client_comp.is_none() { 2 } else { 8 };
         for _ in 0..n {
             let a = Ask {
                 op: next_op(),
@@ -370,7 +381,7 @@ pub fn run_c09_b(ctx: &Ctx) -> Outcome {
         cluster.shutdown();
     });
     }
-    for c in ["compression:none", "compression:lz4-negotiated", "compression:snappy-negotiated", "compression:lz4-asked-node-offers-snappy-only", "compression:snappy-asked-node-offers-none"] {
+    for c in ["compression:none", "compression:lz4-negotiated", "compression:snappy-negotiated", "compression:lz4-asked-node-offers-snappy-only", "compression:snappy-asked-node-offers-none", "mixed-cluster:metadata-id-extension-on-one-node-only"] {
         o.require_class(c);
     }
     for c in ["api:query_unpaged", "api:execute_unpaged", "api:batch", "api:query_single_page", "api:execute_single_page", "paging-state-returned-verbatim", "frame-re-sent-after-UNPREPARED"] {
